@@ -154,31 +154,18 @@ static inline Bytes chunk_content(Ctx &c, size_t maxlen) {
     }
     return b;
 }
-static inline ZFile zfile(Ctx &c, const ZFileOpts &o = ZFileOpts()) {
-    ZFile z;
-    z.comp = o.force_comp >= 0 ? o.force_comp : (c.chance(2, 3) ? ZCK_COMP_ZSTD : ZCK_COMP_NONE);
-    size_t n = o.allow_empty ? c.draw(o.max_chunks) : 1 + c.draw(o.max_chunks - 1);
-    Bytes dict;
-    if (o.allow_dict && c.rarely(3)) { dict.resize(1 + c.draw(600)); if (c.boolean()) fill_random(dict.data(), dict.size(), c.draw(999)); else { pbt::Rng r(c.draw(999)); for (auto &x : dict) x = "abcd\n"[r.next() % 5]; } }
-    std::vector<Bytes> chunks;
-    for (size_t i = 0; i < n; i++) {
-        if (o.allow_dups && i > 0 && c.rarely(5)) chunks.push_back(chunks[c.pick(i)]);
-        else chunks.push_back(chunk_content(c, o.max_chunk));
-    }
-    int full_hash = c.boolean() ? (int)c.draw(3) : -1, chunk_hash = o.force_chunk_hash >= 0 ? o.force_chunk_hash : (c.boolean() ? (int)c.draw(3) : -1);
-    bool uncomp = o.allow_uncomp && c.rarely(5);
-    if (uncomp && (chunk_hash == 0 || chunk_hash == 3 || chunk_hash == -1)) chunk_hash = 1 + (int)c.draw(1);
-    z.by_ref = o.allow_ref_writer && c.rarely(3);
-    for (auto &ch : chunks) z.D.insert(z.D.end(), ch.begin(), ch.end());
-    if (z.by_ref) {
-        ref::WriteSpec w; w.comp = z.comp; w.hash_type = full_hash < 0 ? 1 : full_hash; w.chunk_hash_type = chunk_hash < 0 ? 3 : chunk_hash;
-        w.uncomp_flag = uncomp; w.dict = dict; w.chunks = chunks; w.level = 1 + (int)c.draw(5);
+struct ZParams { int comp = ZCK_COMP_ZSTD; Bytes dict; std::vector<Bytes> chunks; int full_hash = -1, chunk_hash = -1; bool uncomp = false; int level = -1; bool by_ref = false; };
+static inline ZFile zfile_build(Ctx &c, const ZParams &q) {
+    ZFile z; z.comp = q.comp; z.by_ref = q.by_ref;
+    for (auto &ch : q.chunks) z.D.insert(z.D.end(), ch.begin(), ch.end());
+    if (q.by_ref) {
+        ref::WriteSpec w; w.comp = q.comp; w.hash_type = q.full_hash < 0 ? 1 : q.full_hash; w.chunk_hash_type = q.chunk_hash < 0 ? 3 : q.chunk_hash;
+        w.uncomp_flag = q.uncomp; w.dict = q.dict; w.chunks = q.chunks; w.level = q.level < 0 ? 3 : q.level;
         z.file = ref::write(w).file;
     } else {
-        lib::WCfg w; w.comp = z.comp; w.full_hash = full_hash; w.chunk_hash = chunk_hash; w.uncomp = uncomp; w.dict = dict; w.manual = true;
-        if (z.comp == ZCK_COMP_ZSTD && c.boolean()) w.level = (int)c.draw(9);
+        lib::WCfg w; w.comp = q.comp; w.full_hash = q.full_hash; w.chunk_hash = q.chunk_hash; w.uncomp = q.uncomp; w.dict = q.dict; w.manual = true; w.level = q.comp == ZCK_COMP_ZSTD ? q.level : -1;
         std::vector<lib::WOp> ops;
-        for (auto &ch : chunks) { ops.push_back({false, ch.size()}); ops.push_back({true, 0}); }
+        for (auto &ch : q.chunks) { ops.push_back({false, ch.size()}); ops.push_back({true, 0}); }
         lib::WResult wr = lib::write_file(w, z.D, ops);
         if (!wr.ok) c.fail("sample-write", "library failed to write a plain sample: " + wr.cfg_err + wr.err);
         z.file = wr.file;
@@ -186,13 +173,31 @@ static inline ZFile zfile(Ctx &c, const ZFileOpts &o = ZFileOpts()) {
     ref::ParseResult pr = ref::parse(z.file);
     if (!pr.ok || !pr.h.meta_ok) c.fail("sample-parse", "reference rejects a freshly written sample: " + pr.reason + pr.h.meta_reason);
     z.h = pr.h;
-    if (z.h.entries.size() != chunks.size() + 1) c.fail("sample-chunks", "sample has " + std::to_string(z.h.entries.size()) + " index entries, expected " + std::to_string(chunks.size() + 1));
-    z.plain.push_back(dict); for (auto &ch : chunks) z.plain.push_back(ch);
-    std::ostringstream d; d << (z.by_ref ? "ref-written" : "lib-written") << " comp=" << (z.comp == ZCK_COMP_ZSTD ? "zstd" : "none") << " dict=" << dict.size()
-      << " fullhash=" << z.h.hash_type << " chunkhash=" << z.h.chunk_hash_type << (uncomp ? " uncomp-flag" : "") << " chunks=[";
-    for (size_t i = 0; i < chunks.size() && i < 16; i++) d << (i ? "," : "") << chunks[i].size() << ">" << z.h.entries[i + 1].comp_len;
+    if (z.h.entries.size() != q.chunks.size() + 1) c.fail("sample-chunks", "sample has " + std::to_string(z.h.entries.size()) + " index entries, expected " + std::to_string(q.chunks.size() + 1));
+    z.plain.push_back(q.dict); for (auto &ch : q.chunks) z.plain.push_back(ch);
+    std::ostringstream d; d << (z.by_ref ? "ref-written" : "lib-written") << " comp=" << (z.comp == ZCK_COMP_ZSTD ? "zstd" : "none") << " dict=" << q.dict.size()
+      << " fullhash=" << z.h.hash_type << " chunkhash=" << z.h.chunk_hash_type << (q.uncomp ? " uncomp-flag" : "") << " chunks=[";
+    for (size_t i = 0; i < q.chunks.size() && i < 16; i++) d << (i ? "," : "") << q.chunks[i].size() << ">" << z.h.entries[i + 1].comp_len;
+    if (q.chunks.size() > 16) d << ",...(" << q.chunks.size() << ")";
     d << "]"; z.desc = d.str();
     return z;
 }
+static inline ZParams zparams(Ctx &c, const ZFileOpts &o = ZFileOpts()) {
+    ZParams q;
+    q.comp = o.force_comp >= 0 ? o.force_comp : (c.chance(2, 3) ? ZCK_COMP_ZSTD : ZCK_COMP_NONE);
+    size_t n = o.allow_empty ? c.draw(o.max_chunks) : 1 + c.draw(o.max_chunks - 1);
+    if (o.allow_dict && c.rarely(3)) { q.dict.resize(1 + c.draw(600)); if (c.boolean()) fill_random(q.dict.data(), q.dict.size(), c.draw(999)); else { pbt::Rng r(c.draw(999)); for (auto &x : q.dict) x = "abcd\n"[r.next() % 5]; } }
+    for (size_t i = 0; i < n; i++) {
+        if (o.allow_dups && i > 0 && c.rarely(5)) q.chunks.push_back(q.chunks[c.pick(i)]);
+        else q.chunks.push_back(chunk_content(c, o.max_chunk));
+    }
+    q.full_hash = c.boolean() ? (int)c.draw(3) : -1; q.chunk_hash = o.force_chunk_hash >= 0 ? o.force_chunk_hash : (c.boolean() ? (int)c.draw(3) : -1);
+    q.uncomp = o.allow_uncomp && c.rarely(5);
+    if (q.uncomp && (q.chunk_hash == 0 || q.chunk_hash == 3 || q.chunk_hash == -1)) q.chunk_hash = 1 + (int)c.draw(1);
+    q.by_ref = o.allow_ref_writer && c.rarely(3);
+    if (q.by_ref) q.level = 1 + (int)c.draw(5); else if (q.comp == ZCK_COMP_ZSTD && c.boolean()) q.level = (int)c.draw(9);
+    return q;
+}
+static inline ZFile zfile(Ctx &c, const ZFileOpts &o = ZFileOpts()) { return zfile_build(c, zparams(c, o)); }
 
 } // namespace gen
